@@ -212,6 +212,7 @@ pub fn catalogue() -> Vec<Decl> {
     byte_vecs(&mut out);
     capture_and_names(&mut out);
     stateful_defaults(&mut out);
+    dynamic_bounds(&mut out);
     out
 }
 
@@ -738,6 +739,11 @@ fn floats(out: &mut Vec<Decl>) {
             ("huge-lower", vec![ValSpec::GreaterEq(lit_f(if inner == Inner::F32 { 1e38 } else { 1e308 })), ValSpec::Finite]),
             ("huge-upper", vec![ValSpec::Finite, ValSpec::LessEq(lit_f(if inner == Inner::F32 { -1e38 } else { -1e308 }))]),
             ("wide-two-sided", vec![ValSpec::Greater(lit_f(if inner == Inner::F32 { -3e38 } else { -1.5e308 })), ValSpec::Less(lit_f(if inner == Inner::F32 { 3e38 } else { 1.5e308 })), ValSpec::Finite]),
+            // inclusive bounds that are themselves infinite (constants evaluating to +/-inf): `finite` is not implied by them
+            ("inf-upper-finite-last", vec![ValSpec::GreaterEq(lit_f(0.0)), ValSpec::LessEq(expr_f("type-inf", &format!("{ty}::INFINITY"), f64::INFINITY)), ValSpec::Finite]),
+            ("inf-upper-finite-first", vec![ValSpec::Finite, ValSpec::GreaterEq(lit_f(0.0)), ValSpec::LessEq(expr_f("type-inf", &format!("{ty}::INFINITY"), f64::INFINITY))]),
+            ("neg-inf-lower-finite-last", vec![ValSpec::GreaterEq(expr_f("type-neg-inf", &format!("{ty}::NEG_INFINITY"), f64::NEG_INFINITY)), ValSpec::LessEq(lit_f(0.0)), ValSpec::Finite]),
+            ("both-inf-finite-middle", vec![ValSpec::GreaterEq(expr_f("type-neg-inf", &format!("{ty}::NEG_INFINITY"), f64::NEG_INFINITY)), ValSpec::Finite, ValSpec::LessEq(expr_f("type-inf", &format!("{ty}::INFINITY"), f64::INFINITY))]),
         ] {
             let d = std(Decl::new(inner), vals).tag(&format!("float-finite-extreme:{name}"));
             out.push(with_derives(d, &[Tr::Debug, Tr::Clone, Tr::Copy, Tr::PartialEq, Tr::Eq, Tr::PartialOrd, Tr::Ord, Tr::TryFrom, Tr::FromStr, Tr::Deserialize, Tr::Arbitrary]));
@@ -1127,6 +1133,11 @@ fn strings(out: &mut Vec<Decl>) {
             ("max0", vec![LenCharMax(lit_u(0))]),
             ("expr", vec![LenCharMin(spelled("const", "k::KM", "k::KM", Num::U(3), false)), LenCharMax(spelled("const", "KA", "KA", Num::U(5), false))]),
             ("max1", vec![LenCharMax(lit_u(1))]),
+            // two lower bounds of which the expression is the weaker one: the generator has to take the maximum
+            ("not_empty+min-expr0", vec![NotEmpty, LenCharMin(spelled("arith-zero", "KA - KA", "KA - KA", Num::U(0), false))]),
+            ("min-expr0+not_empty", vec![LenCharMin(spelled("arith-zero", "ONE - 1", "ONE - 1", Num::U(0), false)), NotEmpty, LenCharMax(lit_u(6))]),
+            ("not_empty+min-expr1", vec![NotEmpty, LenCharMin(spelled("const", "ONE", "ONE", Num::U(1), false))]),
+            ("min-expr3+not_empty", vec![LenCharMin(spelled("mod-const", "k::KM", "k::KM", Num::U(3), false)), NotEmpty]),
         ]
     };
     let arb_sans: Vec<(&str, Vec<SanSpec>)> = vec![
@@ -1484,6 +1495,22 @@ pub fn c09_optional_decls() -> Vec<Decl> {
     d.vals = Vals::Custom(f("v_nobang", FnForm::Path));
     out.push(with_derives(d, &arb));
     finalize(out, "o")
+}
+
+/// a bound expression that reads run-time state (a limit in an atomic, as a configuration value would be): the
+/// validator reads it on every call, and so must everything else generated from the same tokens
+fn dynamic_bounds(out: &mut Vec<Decl>) {
+    for (k, vals) in [
+        vec![ValSpec::GreaterEq(lit_i(0)), ValSpec::LessEq(spelled("dynamic", "dyn_max()", "10", Num::I(10), false))],
+        vec![ValSpec::LessEq(spelled("dynamic", "dyn_max()", "10", Num::I(10), false)), ValSpec::GreaterEq(lit_i(0))],
+        vec![ValSpec::GreaterEq(lit_i(0)), ValSpec::Less(spelled("dynamic", "dyn_max() + 1", "11", Num::I(11), false))],
+    ]
+    .into_iter()
+    .enumerate()
+    {
+        let d = std(Decl::new(Inner::Int(IntTy::I32)), vals).tag(&format!("dynamic-bound:{k}"));
+        out.push(with_derives(d, &[Tr::Debug, Tr::Clone, Tr::PartialEq, Tr::TryFrom, Tr::FromStr, Tr::Arbitrary]));
+    }
 }
 
 /// byte buffers `Vec<u8>`
